@@ -2,6 +2,8 @@
 //
 //	go2coq Sites -repo <path>      site tables for property C01 (printed on stdout)
 //	go2coq Sites -repo <path> -text    the same tables as plain text (for reading)
+//	go2coq Globals -repo <path>    package-level variables, their writers, Register call sites
+//	                               (properties C15 and C20; globals.go)
 //
 // It loads every package under ./pkg, ./internal and ./cmd of the repository with full type
 // information (golang.org/x/tools/go/packages; test files and files excluded by build
@@ -54,6 +56,8 @@ func main() {
 		} else {
 			w.printCoq(os.Stdout)
 		}
+	case "Globals":
+		fmt.Print(genGlobals(root))
 	default:
 		die("unknown generator %q", gen)
 	}
